@@ -23,5 +23,5 @@ TraceInv == DeviationNeverSucceeds
 TraceAccepted ==
   LET d == TLCGet("stats").diameter IN
   IF d - 1 = Len(Rec) THEN TRUE
-  ELSE Print(<<"TRACE-REJECTED at event", d, Rec[d], "position of that client", ctx[Rec[d].c]>>, FALSE)
+  ELSE Print(<<"TRACE-REJECTED at event", d, Rec[d]>>, FALSE)
 =============================================================================
